@@ -250,6 +250,23 @@ Definition build (ch : child) (l : list obj) : obj :=
   | ChSet _ _ => OSet l | ChFset _ _ => OFset l | _ => ONone
   end.
 
+(* ---- text that has no UTF-8 form.  A Python str may hold lone surrogates (U+D800..U+DFFF: os.fsdecode / surrogateescape
+   produce them); str.encode("UTF-8") raises UnicodeEncodeError exactly on those, and bytes.decode("UTF-8") refuses their
+   three-byte forms (utf8_valid below is that decoder; SchemaProofs.utf8_encode_valid relates the two).  In a wire tree
+   the payload of a STRING token inside OPEN unicode is written as the code points it stands for; a code point that is
+   not encodable stands for the bytes a LENIENT encoder ("surrogatepass") would have put there. *)
+Definition cp_encodable (cp : Z) : bool :=
+  (0 <=? cp) && (cp <=? 1114111) && negb ((55296 <=? cp) && (cp <=? 57343)).
+Definition text_encodable (cps : list Z) : bool := forallb cp_encodable cps.
+
+Fixpoint encodable (o : obj) : bool :=
+  match o with
+  | OText cps => text_encodable cps
+  | OList l | OTuple l | OSet l | OFset l => forallb encodable l
+  | ODict ks vs => forallb encodable ks && forallb encodable vs
+  | _ => true
+  end.
+
 (* leaf unslicers *)
 (* UnicodeUnslicer.checkToken: a STRING body of more than factor*maxLength bytes cannot hold <= maxLength characters *)
 Definition text_body_too_long (mx : option Z) (vocab : bool) (size : Z) : bool :=
@@ -261,6 +278,10 @@ Definition recv_text (mx : option Z) (kids : list wobj) : rv :=
   | [] => RDeliver ONone                                   (* receiveClose returns self.string = None *)
   | WStr vocab size bs :: rest =>
       if text_body_too_long mx vocab size then RViol
+      else if unicode_unslicer_strict_decode && negb (text_encodable bs) then
+        (* receiveChild: self.string = obj.decode("UTF-8") raises UnicodeDecodeError, which is neither Violation nor
+           BananaError: it escapes dataReceived and the connection is lost (unless it is turned into a Violation) *)
+        (if unicode_unslicer_undecodable_violation then RViol else RAbort)
       else match rest with
            | [] => RDeliver (OText bs)                     (* bs: the code points the UTF-8 body decodes to *)
            | _ => RAbort                                   (* BananaError: already received a string / not a string *)
@@ -363,6 +384,13 @@ Fixpoint interleave {A} (a b : list A) : list A :=
 (* length of the UTF-8 form of a text (Python's str.encode("UTF-8")) *)
 Definition utf8len (cp : Z) : Z := if cp <? 128 then 1 else if cp <? 2048 then 2 else if cp <? 65536 then 3 else 4.
 Definition utf8size (cps : list Z) : Z := fold_right (fun cp n => utf8len cp + n) 0 cps.
+(* the bytes themselves (the generic forms; for a lone surrogate this is what errors="surrogatepass" emits) *)
+Definition utf8_encode_cp (cp : Z) : list Z :=
+  if cp <? 128 then [cp]
+  else if cp <? 2048 then [192 + cp / 64; 128 + cp mod 64]
+  else if cp <? 65536 then [224 + cp / 4096; 128 + (cp / 64) mod 64; 128 + cp mod 64]
+  else [240 + cp / 262144; 128 + (cp / 4096) mod 64; 128 + (cp / 64) mod 64; 128 + cp mod 64].
+Definition utf8_encode (cps : list Z) : list Z := flat_map utf8_encode_cp cps.
 
 (* the connection's vocabulary (the negotiated initial table, in index order): a byte string equal to one of its
    words travels as a VOCAB token whose header is the word's INDEX *)
@@ -718,6 +746,17 @@ Record benv := { be_objs : list (Z * target); be_require : bool; be_active : lis
 Fixpoint assocZ {V} (k : Z) (l : list (Z * V)) : option V :=
   match l with [] => None | (k', v) :: l' => if k =? k' then Some v else assocZ k l' end.
 
+(* a RemoteInterface that derives from other RemoteInterfaces: CallUnslicer asks self.interface.get(methodname), and zope's
+   Specification.get walks __iro__ -- the interface itself first, then its bases in resolution order -- and takes the
+   first interface that declares the name DIRECTLY.  layers: the own (direct) method tables of the interfaces of __iro__,
+   in that order; the table in force for a target is their concatenation (assocZ takes the first match) *)
+Definition iface_table (layers : list (list (Z * mschema))) : list (Z * mschema) := List.concat layers.
+Fixpoint most_derived (layers : list (list (Z * mschema))) (n : Z) : option mschema :=
+  match layers with
+  | [] => None
+  | l :: rest => match assocZ n l with Some ms => Some ms | None => most_derived rest n end
+  end.
+
 Inductive citem := CTok (w : wobj) | CArgs (items : list wobj).
 
 (* QNoSchema: the addressed method has no schema in force (outside the property: nothing is declared) *)
@@ -888,7 +927,12 @@ Definition recv_answer (oc : option ctr) (w : wobj) : av :=
   end.
 
 (* the sender of a result: Broker._callFinished applies methodSchema.checkResults(res, False) and then slices the answer *)
+(* UnicodeSlicer.sliceBody: text without a UTF-8 form fails that one object with a Violation while it is being
+   serialized (the sequence is ABORTed; nothing is delivered, the connection stays up) -- None below *)
+Definition sendable (o : obj) : bool := negb unicode_slicer_refuses_unencodable || encodable o.
+
 Definition send_answer (voc : list (list Z)) (ms : mschema) (res : obj) : option wobj :=
+  if negb (sendable res) then None else
   match ms_resp ms with
   | Some c => if callFinished_checks_results && negb (checkObject c res) then None else Some (slice voc res)
   | None => Some (slice voc res)
@@ -898,7 +942,9 @@ Definition send_answer (voc : list (list Z)) (ms : mschema) (res : obj) : option
 Definition send_call (voc : list (list Z)) (ms : mschema) (args : list obj) (kwargs : list (Z * obj))
   : option (list wobj * list (Z * wobj)) :=
   match checkAllArgs ms args kwargs with
-  | Ok _ => Some (map (slice voc) args, map (fun nv => (fst nv, slice voc (snd nv))) kwargs)
+  | Ok _ => if forallb sendable args && forallb (fun nv => sendable (snd nv)) kwargs
+            then Some (map (slice voc) args, map (fun nv => (fst nv, slice voc (snd nv))) kwargs)
+            else None                                  (* refused locally while serializing *)
   | Exc _ => None
   end.
 
@@ -952,6 +998,7 @@ Fixpoint owf (o : obj) : bool :=
   match o with
   | OList l | OTuple l | OSet l | OFset l => forallb owf l
   | ODict ks vs => (List.length ks =? List.length vs)%nat && forallb owf ks && forallb owf vs
+  | OText cps => text_encodable cps          (* text without a UTF-8 form is refused locally by the sender: C12_unencodable_* *)
   | OPending _ => false                      (* cyclic values are outside the honest-sender theorems *)
   | ORemote _ => false                       (* the outbound side of RemoteInterfaceConstraint (Referenceables) is not modelled *)
   | _ => true
